@@ -460,6 +460,18 @@ where
         }
         let c = wrapped.clone();
         rec.truth("clone-shares", probe, Arc::ptr_eq(&*wrapped, &*c), "clone() produced a different allocation");
+        // every way a clone can be taken shares: clone_from onto a fresh value, and through Vec / Option
+        let mut fresh = MultiRef::new(T::default());
+        fresh.clone_from(&wrapped);
+        rec.truth("clone-from-shares", probe, Arc::ptr_eq(&*wrapped, &*fresh), "clone_from() copied the value");
+        let src = vec![wrapped.clone(), wrapped.clone()];
+        let mut dst = vec![MultiRef::new(T::default()), MultiRef::new(T::default()), MultiRef::new(T::default())];
+        dst.clone_from(&src);
+        rec.truth("clone-from-shares", probe, dst.len() == 2 && dst.iter().all(|d| Arc::ptr_eq(&**d, &*wrapped)), "Vec::clone_from copied the values");
+        let mut od = Some(MultiRef::new(T::default()));
+        od.clone_from(&Some(wrapped.clone()));
+        rec.truth("clone-from-shares", probe, od.as_ref().is_some_and(|d| Arc::ptr_eq(&**d, &*wrapped)), "Option::clone_from copied the value");
+        drop((fresh, src, dst, od));
         rec.truth("clone-count", probe, Arc::strong_count(&*wrapped) == 2, "strong count after one clone is not 2");
     }
     rec.cmp("default", probe, &format!("{:?}", T::default()), &format!("{:?}", MultiRef::<T>::default()));
